@@ -113,9 +113,10 @@ func (m *ConvMon) End(w *World) {
 			rids = append(rids, rid)
 		}
 		sort.Strings(rids)
+		conf := c.Client.Confirmed()
 		for _, rid := range rids {
 			cr := c.Client.Store[rid]
-			if cr.Kind == "error" || cr.Deleted {
+			if cr.Kind == "error" || cr.Deleted || !conf[rid] {
 				continue
 			}
 			key := ridKey(w, c, rid)
